@@ -1,6 +1,6 @@
 (** C13 - No time-respecting path is missed. *)
 From DynVerif Require Import Base Graph Annotate Paths.
-From DynVerif.proofs Require Import SnapInv PathFacts PathComplete PathValid.
+From DynVerif.proofs Require Import SnapInv PathFacts PathComplete PathValid SampleFacts.
 From Coq Require Import Sorting.Sorted.
 
 (** when u has no interaction at start (u not in the graph when start is omitted) the result is empty *)
@@ -77,3 +77,29 @@ Proof.
   intros H. repeat (destruct H as [H|H]; [discriminate|]). exact H.
 Qed.
 Print Assumptions C13_complete_refuted.
+
+(** sample < 1: whatever sub-collection of the (source, target) pairs is drawn, the result is a duplicate-free
+    sub-collection of the full result (and the draw cannot turn an error into a result or back); drawing every
+    pair is the unsampled function *)
+Theorem C13_sample_subset : forall sel g u v s e l,
+  (forall ps, incl (sel ps) ps) ->
+  time_respecting_paths_sel sel g u v s e = PathsOk l ->
+  exists full, time_respecting_paths g u v s e = PathsOk full /\ incl l full /\ NoDup l.
+Proof. exact sample_subset. Qed.
+Print Assumptions C13_sample_subset.
+
+Theorem C13_sample_all : forall g u v s e,
+  time_respecting_paths_sel (fun l => l) g u v s e = time_respecting_paths g u v s e.
+Proof. exact trp_sel_id. Qed.
+Print Assumptions C13_sample_all.
+
+Theorem C13_sample_error : forall sel g u v s e,
+  time_respecting_paths_sel sel g u v s e = PathsValueError <-> time_respecting_paths g u v s e = PathsValueError.
+Proof. exact sample_error. Qed.
+Print Assumptions C13_sample_error.
+
+Example C13_sample_example :
+  let g := fst (add_interaction (fst (add_interaction (empty_graph false true) 1 2 (Some 0) None)) 2 3 (Some 1) None) in
+  time_respecting_paths_sel (fun l => tl l) g 1 None None None = PathsOk [[(1, 2, 0); (2, 3, 1)]] /\
+  time_respecting_paths g 1 None None None = PathsOk [[(1, 2, 0)]; [(1, 2, 0); (2, 3, 1)]].
+Proof. vm_compute. auto. Qed.
